@@ -48,7 +48,7 @@ Init ==
   /\ sent = [s \in 1..3 |-> 0]
   /\ psrc \in {x \in PanicSrcs : x <= m.k}
   /\ sync \in {x \in SyncEnds : x.s <= m.k}
-  /\ tail \in (IF m.op \in {"WindowWhen", "GroupBy"} THEN {"none"} ELSE Tails)
+  /\ tail \in (IF m.op \in {"WindowWhen", "GroupBy", "GroupByLeave"} THEN {"none"} ELSE Tails)
 
 SyncNotif == IF sync.k = "E" THEN E(sync.s, SubCtx \cup {TMark(sync.s)}) ELSE C(SubCtx \cup {TMark(sync.s)})
 
